@@ -29,7 +29,7 @@ package interp
 //@ trusted func (n *node) hasAnc(nod) (r)
 //@   pure
 //@ lit Interpreter.CompileAST if:mainID () ()
-//@   props C11
+//@   props C11 C15
 //@   opt safety = off
 //@   opt opaque-calls = *
 //@   opt opaque-havoc = none
